@@ -758,7 +758,17 @@ pub fn main(args: &Args) -> i32 {
     report.set("programs", json!(cfgs.len()));
     report.set("bank_definitions", json!(METHODS.len() + PROPS.len() + SIGNALS.len()));
     report.set("documents", json!(docs.len()));
-    report.set("distinct_documents", json!(texts.len() / 2));
+    // distinct up to the order of sibling elements (the server writes interfaces and child nodes
+    // in HashMap order, which differs from run to run)
+    let canon_docs: BTreeSet<Vec<&str>> = texts
+        .iter()
+        .map(|t| {
+            let mut lines: Vec<&str> = t.lines().map(|l| l.trim()).collect();
+            lines.sort();
+            lines
+        })
+        .collect();
+    report.set("distinct_documents_up_to_sibling_order", json!(canon_docs.len() / 2));
     report.set("wire_probes", json!(*probes.lock().unwrap()));
     report.assume("python3's expat is the judge of well-formedness; quick-xml/zbus_xml is only the subject of the read-back clause");
     report.assume("declared output types are compared only for methods that do not return a single struct (the property's own exemption)");
